@@ -37,9 +37,9 @@ LEVEL_TEXT = ('Theorems for every layer tree, request, callback result and every
 LEVEL_NOTE = ('Trusted: Coq kernel, the hand-written model Auth.v, the correspondence harness.  Validated only, not '
               'proved: the relation between the rasterised mask and the true geometry (-0.1 px buffer, PIL polygon '
               'fill, vertex-wise reprojection), shapely predicates, the Pillow integer formulas, opacity as an exact '
-              'fraction (dyadic values).  Two defects of the code are known findings: the blend path of the merger '
-              'paints white through a clipped layer when the request is not transparent and the layer has opacity < 1; '
-              'tile services ignore the global limited_to when the layer entry has its own.')
+              'fraction (dyadic values).  One defect of the code is a known finding: tile services ignore the global '
+              'limited_to when the layer entry has its own.  (The blend path of the merger that painted white through a '
+              'clipped layer was repaired in /repo, commit 2542798; its witness stays in the corpus.)')
 DESIGN_REF = 'DESIGN.md section 5, C10'
 RULE = ('case = merge: (request options, layer modes/options/clip, masks, pixels); app: (layer tree, request, callback '
         'result, geometric predicates); non-trivial = partial/none/unauthenticated callback results or a clip mask with '
@@ -252,26 +252,38 @@ def fval_py(v):
     return {'false': False, 'true': True, 'truthy': 1}[v]
 
 
+def add_geom(rng, geoms, kindsel=None):
+    """new geometry with a bounding box distinct from the others of the same callback result (the harness
+    recognises coverage objects by their bounds); returns its id"""
+    gid = len(geoms) + 1
+    for _try in range(50):
+        g = gen_geom(rng, kind=kindsel)
+        if all(shape_bounds(g['shape']) != shape_bounds(o['shape']) for o in geoms.values()):
+            break
+    geoms[str(gid)] = g
+    return gid
+
+
+def bias_callback(rng, cb, names, key):
+    """make the interesting branch likely: partial result, feature `key` granted, geometries present"""
+    cb['kind'] = 'partial'
+    for n in names:
+        if rng.random() < 0.8:
+            p = cb['layers'].setdefault(n, {})
+            p[key] = 'true'
+            if p.get('limited_to') is None and rng.random() < 0.5:
+                p['limited_to'] = add_geom(rng, cb['geoms'])
+    if cb['limited_to'] is None and rng.random() < 0.4:
+        cb['limited_to'] = add_geom(rng, cb['geoms'])
+
+
 def gen_callback(rng, names, focus=None, want_geom=True):
     """names: all layer names of the configuration; focus: names that the request touches."""
     kind = rng.choice(KINDS)
     layers = {}
     geoms = {}
-    gid = [0]
-
-    def bounds(g):
-        pts = [p for ext, _h in g['shape']['polys'] for p in ext]
-        return (min(p[0] for p in pts), min(p[1] for p in pts), max(p[0] for p in pts), max(p[1] for p in pts))
-
     def new_geom(kindsel=None):
-        # geometries of one result have distinct bounding boxes (the harness recognises coverage objects by them)
-        gid[0] += 1
-        for _try in range(50):
-            g = gen_geom(rng, kind=kindsel)
-            if all(bounds(g) != bounds(o) for o in geoms.values()):
-                break
-        geoms[str(gid[0])] = g
-        return gid[0]
+        return add_geom(rng, geoms, kindsel)
     pool = list(names)
     for n in pool:
         r = rng.random()
@@ -567,7 +579,7 @@ def gen_config(rng):
     nsrc = rng.choice([3, 4, 5])
     sources = []
     for i in range(nsrc):
-        sources.append({'id': i, 'transparent': rng.random() < 0.6, 'fi': rng.random() < 0.6,
+        sources.append({'id': i, 'transparent': rng.random() < 0.6, 'fi': rng.random() < 0.8,
                         'opacity': rng.choice([None, None, None, None, 0.5])})
     ncache = rng.choice([1, 2, 2])
     caches = []
@@ -778,14 +790,18 @@ def gen_requests(rng, cfg, nreq):
             if cache['grid'] == 'gnw' and z > 0:
                 ny = max(1, ny // 2)
             x, y = rng.randrange(nx), rng.randrange(ny)
-            svc = rng.choice(['tms', 'kml', 'wmts_rest', 'wmts_kvp', 'wmts_fi', 'wmts_fi'] if rng.random() < 0.5
-                             else ['tms', 'kml', 'wmts_rest', 'wmts_kvp'])
+            svc = rng.choice(['tms', 'kml', 'wmts_rest', 'wmts_kvp', 'wmts_fi', 'wmts_fi'])
             req = {'type': 'tile', 'service': svc, 'layer': n, 'grid': cache['grid'], 'tile': [x, y, z],
                    'format': 'jpeg' if cache['format'] == 'image/jpeg' else 'png',
                    'pos': [rng.randrange(3, 61), rng.randrange(3, 61)]}
             focus = [n]
         geomful = req['type'] != 'tile' or True
         req['cb'] = None if rng.random() < 0.06 else gen_callback(rng, names, focus=focus, want_geom=geomful)
+        if req['cb'] is not None and rng.random() < 0.55:
+            if req['type'] == 'fi':
+                bias_callback(rng, req['cb'], names, 'featureinfo')
+            elif req['type'] == 'tile':
+                bias_callback(rng, req['cb'], [req['layer']], 'featureinfo' if req['service'] == 'wmts_fi' else 'tile')
         if req['type'] == 'tile' and req['cb'] is not None:
             # tile shapes: decisive relation to the tile
             for g in req['cb']['geoms'].values():
@@ -883,7 +899,13 @@ def run_app_config(ctx, cfg, reqs, out):
                             cov))
             rec.merge_call = {'layers': lys, 'coverage': coverage, 'size': size, 'bbox': bbox, 'srs': bbox_srs,
                               'opts': (image_opts.mode, image_opts.transparent, image_opts.bgcolor)}
-        return orig_merge(self, image_opts, size=size, bbox=bbox, bbox_srs=bbox_srs, coverage=coverage)
+        res = orig_merge(self, image_opts, size=size, bbox=bbox, bbox_srs=bbox_srs, coverage=coverage)
+        if rec.merge_call is not None and 'result' not in rec.merge_call:
+            try:
+                rec.merge_call['result'] = res.as_image().convert('RGBA')
+            except Exception:  # noqa
+                rec.merge_call['result'] = None
+        return res
 
     def trender(self, tile_request, use_profiles=False, coverage=None, decorate_img=None):
         rec.tile_cov = coverage
@@ -1004,7 +1026,7 @@ def handle_response(ctx, cfg, req, cb, resp, status, rec, up, tree, names, exten
     if req['type'] == 'map':
         handle_map(ctx, cfg, req, cb, resp, status, rec, up_map, tree, names, extents, out, rep, layer_src_ids)
     elif req['type'] == 'fi':
-        handle_fi(ctx, cfg, req, cb, resp, status, rec, up_fi, tree, names, extents, out, rep)
+        handle_fi(ctx, cfg, req, cb, resp, status, rec, up_fi, tree, names, extents, out, rep, layer_src_ids)
     else:
         handle_tile(ctx, cfg, req, cb, resp, status, rec, up_map, up_fi, names, extents, out, rep, fi_src)
 
@@ -1064,9 +1086,11 @@ def handle_map(ctx, cfg, req, cb, resp, status, rec, up_map, tree, names, extent
             ctx.fail('map,explicit-denied-not-403', 'layers %r are requested explicitly and denied, status is %d' % (expl, status), rep)
         if not expl and status == 403:
             ctx.fail('map,403-without-explicit-denied-layer', 'status 403 although every denied layer is implicit', rep)
-    out['map_terms'].append('(%s, %s, %s, %s, %s, %s)' % (
+    # sources behind caches that store tiles may be answered from disk: their upstream request is optional
+    maybe = sorted(set(c['source'] for c in cfg['caches'] if c['store']))
+    out['map_terms'].append('(%s, %s, %s, %s, %s, %s, %s)' % (
         tree, llit([names(n) for n in req['layers']]), cb_lit(cb, names), obs,
-        olit(None if cbarg is None else [names(n) for n in cbarg], llit), llit(up_map)))
+        olit(None if cbarg is None else [names(n) for n in cbarg], llit), llit(up_map), llit(maybe)))
     out['map_descr'].append({'stream': 'app', 'case': {'config': cfg, 'requests': [req]}, 'status': status,
                              'observed_render_list(lim,src)': ents, 'observed_global_coverage': gcov,
                              'callback_layers_arg': cbarg, 'upstream_map_sources': up_map})
@@ -1138,9 +1162,18 @@ def handle_map(ctx, cfg, req, cb, resp, status, rec, up_map, tree, names, extent
             obg = ImageColor.getrgb(obg)
         rol = '(mk_ropts %s %s %s)' % (olit(omode, lambda m: 'M_' + m), olit(None if otr is None else bool(otr), blit),
                                       olit(None if obg is None else tuple(obg[:3]), lambda c: '(%d, %d, %d)' % c))
+        merged = mc.get('result')
+        if merged is None or merged.size != (w, h):
+            continue
+        mgot = merged.getpixel((x, y))
+        # the response is the encoded merged image (png may be quantised, jpeg is lossy)
+        if max(abs(a - b) for a, b in zip(got, mgot)) > (40 if jpeg else 4) and not (jpeg and mgot[3] == 0):
+            ctx.fail('map,response-differs-from-merged-image', 'pixel (%d,%d) of the response is %r, the merged image has %r'
+                     % (x, y, got, mgot), rep)
+            return
         out['px_terms'].append('(%s, [%s], [%s], %s, %s, %s)' % (
             rol, '; '.join(metas), '; '.join(col), olit(None if gcov is None else cls[gcov] == 'out', blit),
-            px_lit(got), zlit(40 if jpeg else 0)))
+            px_lit(mgot), zlit(0)))
         out['px_descr'].append({'stream': 'app', 'case': {'config': cfg, 'requests': [req]}, 'pixel': [x, y], 'observed': list(got)})
 
 
@@ -1171,7 +1204,7 @@ def combined_view(ents, mc):
     return res if i == len(ents) else []
 
 
-def handle_fi(ctx, cfg, req, cb, resp, status, rec, up_fi, tree, names, extents, out, rep):
+def handle_fi(ctx, cfg, req, cb, resp, status, rec, up_fi, tree, names, extents, out, rep, layer_fi_ids):
     w, h = req['size']
     geoms = {} if cb is None else cb['geoms']
     x, y = req['pos']
@@ -1194,6 +1227,16 @@ def handle_fi(ctx, cfg, req, cb, resp, status, rec, up_fi, tree, names, extents,
         if up_fi or body.strip():
             ctx.fail('fi,answer-outside-global-geometry', 'feature info %r / upstream %r for a point outside the geometry'
                      % (body[:80], up_fi), rep)
+    # oracle: an info source is asked only if some permitted layer using it is unlimited or contains the point
+    if cb is not None and cb['kind'] == 'partial' and up_fi:
+        allowed = set()
+        for n, p in cb['layers'].items():
+            if p.get('featureinfo') == 'true' and (p.get('limited_to') is None or cls[p['limited_to']] == 'in'):
+                allowed.update(layer_fi_ids(n))
+        bad = [i for i in up_fi if i not in allowed]
+        if bad:
+            ctx.fail('fi,answer-outside-layer-geometry', 'info sources %r were asked although every permitted layer using '
+                     'them is limited to a geometry that does not contain the point' % (bad,), rep)
     pt = llit(sorted(g for g, v in cls.items() if v == 'in'))
     out['fi_terms'].append('(%s, %s, %s, %s, %s, (%s))' % (
         tree, llit([names(n) for n in req['qlayers']]), llit([names(n) for n in req['layers']]), cb_lit(cb, names), pt, obs))
@@ -1316,12 +1359,13 @@ Definition strip (o : wms_out) : wms_out :=
   match o with W_ok rl c => W_ok (map (fun e : rentry => (0, snd (fst e), snd e)) rl) c | x => x end.
 Definition inl (l : list Z) (g : Z) : bool := mem g l.
 """
-MAP_TYPE = 'list wlayer * list Z * option cbres * wms_out * option (list Z) * list Z'
-MAP_CHECK = ("fun c => let '(tree, req, cb, obs, cbarg, log) := c in "
+MAP_TYPE = 'list wlayer * list Z * option cbres * wms_out * option (list Z) * list Z * list Z'
+MAP_CHECK = ("fun c => let '(tree, req, cb, obs, cbarg, log, maybe) := c in "
              "let m := wms_map tree req cb in "
              "wms_out_eqb (strip m) obs "
              "&& match cbarg with Some a => list_eqb Z.eqb a (wms_map_cbarg tree req) | None => true end "
-             "&& set_eqb (wms_log m) log")
+             "&& forallb (fun x => mem x (wms_log m)) log "
+             "&& forallb (fun x => mem x log || mem x maybe) (wms_log m)")
 FI_TYPE = 'list wlayer * list Z * list Z * option cbres * list Z * fi_out'
 FI_CHECK = ("fun c => let '(tree, ql, ls, cb, pin, obs) := c in "
             "match wms_featureinfo tree ql ls cb (inl pin), obs with "
